@@ -146,7 +146,7 @@ fn gen(seed: u64, family: &str, tier: Tier) -> Case {
     let mut r = Rng::new(seed ^ fnv64("C12"));
     let mut w = World::gen_graph(&mut r, &graph_params(tier));
     gen_traversal(&mut r, &mut w);
-    gen_algorithm(&mut r, &mut w, true);
+    gen_algorithm(&mut r, &mut w, true, true);
     gen_termination(&mut r, &mut w);
     let mut pc = gen_plugins(&mut r, &mut w);
     if family == "yens-known" {
